@@ -2,6 +2,7 @@ import GormModel.Drv.Util
 import GormModel.Model.Where
 import GormModel.Model.InList
 import GormModel.Gen.GuardWhereFacts
+import GormModel.Drv.C02b
 open Lean
 namespace Gorm.Drv
 namespace HC02
@@ -246,6 +247,6 @@ def handleC02 (op : String) (args : Array Json) : Option Json := do
       let s' := stmtStep cfg acc.1 op
       (s', acc.2.push (stateJ s' rej))) (StmtState.fresh, #[])
     some (Json.arr out)
-  | _ => none
+  | _ => handleC02b op args   -- round 4: Drv/C02b.lean (val.dispatch, rekey.tie)
 
 end Gorm.Drv
